@@ -27,8 +27,8 @@ EVAL_UNIT_TEXT = "(input, routine, draw sequence) executions; simulated_runs cou
 BUDGET = {"quick": 200, "thorough": 900}
 JOB_TIMEOUT = 180
 MINIMISE_S = {"quick": 40, "thorough": 120}
-RULE = ("a case = one routine call on a seeded input (graphs of 4-12 nodes incl. disconnected, complete, empty, planted cliques; seed cliques / "
-        "subgraphs; weight vectors with ties; all node_select modes; orbits/events up to 10 photons, 12 modes) driven through every sequence of RNG "
+RULE = ("a case = one routine call on a seeded input (graphs of 4-12 nodes incl. disconnected, complete, empty, planted cliques; seed cliques (incl. the empty one) / "
+        "subgraphs; weight vectors with ties; all node_select modes; orbits/events up to 10 photons, 12 modes - 20-40 modes in a quarter of the similarity runs) driven through every sequence of RNG "
         "tie-breaks when there are <= cap of them (seeded sample beyond); non-trivial iff at least one RNG decision had >= 2 legal choices; distinct = "
         "distinct sha256(input, routine, draw sequence)")
 REAL = ["strawberryfields.apps.clique (grow, swap, shrink, search, c_0, c_1, is_clique)", "strawberryfields.apps.subgraph (resize, search, _update_dict, _update_subgraphs_list)",
